@@ -47,7 +47,7 @@ func runProcOpts(timeout time.Duration, dir string, env []string, stdin []byte, 
 		return syscall.Kill(-c.Process.Pid, syscall.SIGKILL)
 	}
 	c.WaitDelay = 60 * time.Second // only bounds the copy of already written output after the process has gone
-	var so, se bytes.Buffer
+	var so, se capBuffer // (gosk -d prints a parser trace of hundreds of megabytes for larger sources)
 	c.Stdout, c.Stderr = &so, &se
 	if deadStdout {
 		if pr, pw, err := os.Pipe(); err == nil {
@@ -88,6 +88,44 @@ func runProcOpts(timeout time.Duration, dir string, env []string, stdin []byte, 
 		}
 	}
 	return res
+}
+
+// capBuffer keeps the first and the last few megabytes of what is written to it.
+type capBuffer struct {
+	head, tail []byte
+	dropped    int64
+}
+
+const capHead, capTail = 2 << 20, 4 << 20
+
+func (b *capBuffer) Write(p []byte) (int, error) {
+	n := len(p)
+	if room := capHead - len(b.head); room > 0 {
+		k := room
+		if k > len(p) {
+			k = len(p)
+		}
+		b.head = append(b.head, p[:k]...)
+		p = p[k:]
+	}
+	if len(p) > 0 {
+		b.tail = append(b.tail, p...)
+		if len(b.tail) > 2*capTail {
+			cut := len(b.tail) - capTail
+			b.dropped += int64(cut)
+			b.tail = append(b.tail[:0], b.tail[cut:]...)
+		}
+	}
+	return n, nil
+}
+
+func (b *capBuffer) Bytes() []byte {
+	if b.dropped == 0 {
+		return append(append([]byte(nil), b.head...), b.tail...)
+	}
+	out := append([]byte(nil), b.head...)
+	out = append(out, []byte("\n...[output dropped by the harness]...\n")...)
+	return append(out, b.tail...)
 }
 
 // parallelDo runs f(i) for i in [0,n) on `par` goroutines.
